@@ -12,6 +12,7 @@ Definition kind_of (sid : N) : option (kind * wrap) :=
   | 9 => Some (KHash, WFlagged) | 10 => Some (KBTree, WFlagged)
   | 11 => Some (KVec, WDeref) | 12 => Some (KDense, WDeref) | 13 => Some (KDefault, WDeref)
   | 14 => Some (KHash, WDeref) | 15 => Some (KBTree, WDeref)
+  | 16 => Some (KNull, WFlagged) | 17 => Some (KNull, WDeref)      (* zero-sized components on the tracking wrappers *)
   | _ => None
   end.
 
